@@ -148,3 +148,19 @@ Theorem C04_write_format_is_source : forall b cs,
     ++ [SrcGen.src_bed_Write_10].
 Proof. exact SrcGenProofs.bed_write_is_source. Qed.
 Print Assumptions C04_write_format_is_source.
+
+(* ---- tie to the Go source by translation of whole function bodies (gen/ImpGen.v, written
+   by `harness gen-imp` on every run, in the embedding of Model/GoSem.v) ------------------- *)
+From Bio.gen Require ImpGen.
+From Bio.Model Require GoSem.
+From Bio.Proofs Require ImpProofs ImpProofsG.
+
+(* BED.Write as translated from bed.go — the range check on N, the ladder of `if b.N > k`,
+   the three ItemRGB reads, the two loops over the block lists with their computed format —
+   hands to a writer that never fails exactly the chunks of the model, and refuses (an
+   error, nothing written) exactly when the model does. *)
+Theorem C04_write_is_source : forall b,
+  ImpGen.imp_bed_BED_Write (ImpProofsG.bed_of b)
+  = match Bio.Model.Bed.write_calls b with Ok cs => GoSem.Ret (cs, false) | _ => GoSem.Ret ([], true) end.
+Proof. exact ImpProofsG.imp_BED_Write. Qed.
+Print Assumptions C04_write_is_source.
